@@ -788,6 +788,12 @@ class Unit:
         return self
 
     def emit(self, frag, prefix="", suffix=""):
+        if frag.kind == "type":
+            # a `type X = ..;` alias is emitted once per unit (explicitly by the unit, or because an extracted struct mentions it)
+            done = self.__dict__.setdefault("_aliases_emitted", set())
+            if (frag.file, frag.name) in done:
+                return frag
+            done.add((frag.file, frag.name))
         if prefix:
             self.raw(prefix, "glue")
             self.chunks[-1][2]["owner"] = frag      # hand-written header of a region: belongs to that region
